@@ -8,6 +8,7 @@
    deletion) before the response and before the table is consulted again.  Statements only; proofs
    in Proofs/C18Proofs.v, definitions of no_touch / written_through / run_from_inst in Model/Alias.v. *)
 From Verif Require Import Base Scope Types Prog Pop Token Authorize System Config Run Alias ReadOnly C17Proofs C18Proofs C18ReadOnlyProofs.
+From Verif Require Import Jar Hoare C18Json.
 Local Open Scope N_scope.
 
 (* ---- the generic half: a program that never writes in place runs the same on both stores ---- *)
@@ -167,3 +168,42 @@ Proof.
   repeat split. destruct ex_world as [w|] eqn:E; [|vm_compute in E; discriminate E].
   intros st. apply read_only_requests_keep_the_state. reflexivity.
 Qed.
+
+(* ---- list-valued members and the JSON form of stored objects (defects D27, D28; Proofs/C18Json.v) ----
+   A storage that serialises (encoding/json, members tagged omitempty) reads an empty list back as an absent
+   one.  json_params / json_client are that round trip on the members of the model it can change: the
+   authorization_details of the parameters of a stored session and the authorization_data_types of a stored
+   client.  Every session POST /par saves - plain or through a request object, on every path, whatever the
+   storage answers - carries parameters that are a FIXED POINT of the round trip ... *)
+Theorem pushed_session_is_json_fixed_point : forall w jx n now r obj,
+  saves_ok any_grant stable_session (push_auth w n now r) /\
+  saves_ok any_grant stable_session (push_auth_jar w jx n now r obj).
+Proof. exact pushed_sessions_stable. Qed.
+Print Assumptions pushed_session_is_json_fixed_point.
+
+(* ... so the parameters /authorize merges with the outer ones of the redeeming request are the same under
+   both flavours ... *)
+Theorem pushed_merge_flavour_independent : forall i o,
+  merge_params (json_params (par_stored_params i)) o = merge_params (par_stored_params i) o.
+Proof. exact merge_of_pushed_flavour_independent. Qed.
+Print Assumptions pushed_merge_flavour_independent.
+
+(* ... which is NOT so for the parameters as they arrive (the defect D27 as found: `authorization_details=[]`
+   pushed, an outer list on the redeeming request). *)
+Theorem raw_merge_flavour_dependent : exists i o,
+  p_auth_details (merge_params (json_params i) o) <> p_auth_details (merge_params i o).
+Proof. exact (ex_intro _ d27_inner (ex_intro _ d27_outer merge_raw_flavour_dependent)). Qed.
+Print Assumptions raw_merge_flavour_dependent.
+
+(* The validation of requested authorization-detail types - the only reader of a client's registered list -
+   does not tell a client from its JSON round trip (D28). *)
+Theorem registered_detail_types_json_invariant : forall cfg c d,
+  details_param_ok cfg (json_client c) d = details_param_ok cfg c d.
+Proof. exact details_param_ok_json. Qed.
+Print Assumptions registered_detail_types_json_invariant.
+
+(* the round trip is not the identity on the examples (so the statements above say something) *)
+Example json_round_trip_changes_something :
+  json_params d27_inner <> d27_inner /\
+  (forall c, c_auth_detail_types c = Some [] -> c_auth_detail_types (json_client c) = None).
+Proof. split; [vm_compute; discriminate|]. intros c H. unfold json_client. cbn. rewrite H. reflexivity. Qed.
